@@ -107,9 +107,10 @@ def run_dsop(w, s):
             per_var[k] = (lambda a, k=k: getattr(a, fn)(axis=dim, skipna=skipna) if has(k) else a)
     elif what == "take_axis":
         ind, indexing = s["ind"], s["indexing"]
-        real = lambda: ds.take_axis(ind, axis=axis, indexing=indexing)
+        mkw = {"mode": s["mode"]} if "mode" in s else {}
+        real = lambda: ds.take_axis(ind, axis=axis, indexing=indexing, **mkw)
         for k in keys:
-            per_var[k] = (lambda a, k=k: a.take_axis(ind, axis=dim, indexing=indexing) if has(k) else a)
+            per_var[k] = (lambda a, k=k: a.take_axis(ind, axis=dim, indexing=indexing, **mkw) if has(k) else a)
     elif what == "sort_axis":
         real = lambda: ds.sort_axis(axis=axis)
         for k in keys:
